@@ -84,13 +84,22 @@ inline void sincosd(double d, Q& s, Q& c) {
 struct Ell {
   Q a, f, b, e2;        // e2 = f(2-f), negative for prolate
   Q ae;                 // sqrt|e2|
-  Ell(double a_, double f_) : a(a_), f(f_) { b = a * (1 - f); e2 = f * (2 - f); ae = sqrtq(fabsq(e2)); }
+  Q hphi, ht;           // panel widths of the quadratures in phi and in t = asinh(tan phi)
+  Ell(double a_, double f_) : a(a_), f(f_) {
+    b = a * (1 - f); e2 = f * (2 - f); ae = sqrtq(fabsq(e2));
+    // the integrands are analytic up to a distance d from the real axis: in phi d = acosh(1/e) (oblate), asinh(1/|e|)
+    // (prolate); in t d = pi/2 (oblate), atan(1/|e|) (prolate).  A 40-point panel of half-width h converges like
+    // ((d + sqrt(d^2+h^2))/h)^-80; h <= 0.7 d gives better than 1e-38.  (|f| <= 0.2: the widths are pi/8 and 1.)
+    Q dphi = e2 == 0 ? Q(10) : (e2 > 0 ? acoshq(1 / ae) : asinhq(1 / ae));
+    Q dt = e2 >= 0 ? M_PI_2q : atanq(1 / ae);
+    hphi = fminq(M_PIq / 8, Q(1.4) * dphi); ht = fminq(Q(1), Q(1.4) * dt);
+  }
   // meridional radius of curvature M and parallel radius R = N cos(phi), as functions of sin, cos
   Q M(Q sp) const { Q d = 1 - e2 * sp * sp; return a * (1 - e2) / (d * sqrtq(d)); }
   Q R(Q sp, Q cp) const { return a * cp / sqrtq(1 - e2 * sp * sp); }
   // signed meridian distance from phi1 to phi2 (radians)
   Q merid(Q phi1, Q phi2) const {
-    return integrate([this](Q p) { return M(sinq(p)); }, phi1, phi2, M_PIq / 8);
+    return integrate([this](Q p) { return M(sinq(p)); }, phi1, phi2, hphi);
   }
   Q quarter() const { return merid(0, M_PI_2q); }
   // e atanh(e s) for oblate, -|e| atan(|e| s) for prolate  ( = e^2 * atanhee )
@@ -105,14 +114,21 @@ struct Ell {
   Q area() const { return 4 * M_PIq * zoneA(1); }
   // phi2 with merid(phi1, phi2) = d (|phi| may not exceed pi/2: caller guarantees)
   Q merid_inv_from(Q phi1, Q d) const {
+    // merid(phi1, .) is increasing: Newton's method safeguarded by a bracket (bisection when a step leaves it)
+    Q lo = -M_PI_2q, hi = M_PI_2q;
     Q phi2 = phi1 + d / M(sinq(phi1));
-    if (phi2 > M_PI_2q) phi2 = M_PI_2q; if (phi2 < -M_PI_2q) phi2 = -M_PI_2q;
-    for (int it = 0; it < 60; ++it) {
-      Q r = d - merid(phi1, phi2), st = r / M(sinq(phi2));
-      phi2 += st;
-      if (phi2 > M_PI_2q) phi2 = M_PI_2q; if (phi2 < -M_PI_2q) phi2 = -M_PI_2q;
-      if (fabsq(st) <= Q(1e-31) * (fabsq(phi2 - phi1) + Q(1e-300))) break;
-      if (fabsq(st) < Q(1e-40)) break;
+    if (!(phi2 > lo && phi2 < hi)) phi2 = d > 0 ? (phi1 + hi) / 2 : (phi1 + lo) / 2;
+    for (int it = 0; it < 200; ++it) {
+      Q r = d - merid(phi1, phi2);
+      if (r > 0) lo = phi2; else if (r < 0) hi = phi2; else break;
+      Q st = r / M(sinq(phi2)), nx = phi2 + st;
+      if (!(nx > lo && nx < hi)) {
+        // the target may be the pole itself (or beyond by rounding): accept the bracket end when the residual there is nil
+        nx = (lo + hi) / 2; st = nx - phi2;
+      }
+      phi2 = nx;
+      if (fabsq(st) <= Q(1e-31) * (fabsq(phi2 - phi1) + Q(1e-300)) || fabsq(st) < Q(1e-40)) break;
+      if (hi - lo < Q(1e-33)) break;
     }
     return phi2;
   }
@@ -148,7 +164,7 @@ inline Seg segment(const Ell& E, const Lat& p1, const Lat& p2) {
   // |Im t| < atan(1/|e|) (prolate) or pi/2 (oblate) >= 0.73 for |f| <= 0.5: panels of width 1 with 40 nodes converge to
   // better than 1e-38.  Both integrals are formed over the interval itself (no cancellation for nearby points).
   Q t1 = asinhq(p1.t), t2 = asinhq(p2.t), len = t2 - t1;
-  int np = (int)ceilq(fabsq(len)); if (np < 1) np = 1;
+  int np = (int)ceilq(fabsq(len) / E.ht); if (np < 1) np = 1;
   const GL& gq = gl(); const Q e2 = E.e2;
   Q ig = 0, ia = 0, h = len / np;
   for (int p = 0; p < np; ++p) {
